@@ -60,7 +60,12 @@ RULE = ("filters ZFilter/LinearFilter(b, a) and z-expressions with small int / d
         "nothing, wrong keyword, self missing) x 33 kinds of frequency object (sizes 0..4, non-numbers among the "
         "elements) x filter classes / cascade / parallel / nested targets, lazy results read len+2 times; dft with every "
         "positional/keyword split, 11 spellings of normalize incl. omitted, 9 block kinds (5 with len(), 4 read-once), "
-        "10 kinds of frequency object, unbindable calls.  Non-trivial = the impl returned "
+        "10 kinds of frequency object, unbindable calls; POLES: ZFilter(b, (1 - r z^-1) q), r = +-1, small int "
+        "coefficients, q bounded away from zero, probed at 17 float frequencies whose exact point is the pole or next "
+        "to it (0, -0.0, int 0, +-pi, 2pi .. 7pi, 1e-13, -2^-45, 1e-20, 1e-100, +-pi/2): nan (the float nan, not a complex "
+        "nan) exactly at omega = 0, a large finite value everywhere else, compared with the exact value at the exact "
+        "binary64 point cexp(-1j*omega); dft(c*x + y) against c*dft(x) + dft(y) for all frequencies / both modes; every "
+        "FIR / exponential run also against the C04 specification (fspec).  Non-trivial = the impl returned "
         "at least one finite non-zero value, a predicted nan or a predicted exception; distinct = distinct JSON case")
 TRUSTED = [
     "the call: hand-written Lean model ALV/Model/C12Call.lean of lazy_misc.elementwise's wrapper (decorator default, "
@@ -77,6 +82,10 @@ TRUSTED = [
     "Props.C12.unit_point_is_exp proves that every unit-modulus point is exp(-i omega) for omega = -arg w",
     "float regime: impl values are compared with the exact Gaussian-rational value under 1e-9*(1+|expected|); "
     "cmath.exp / complex arithmetic rounding is bounded a priori per case, not modelled",
+    "poles: the point handed to the driver is the exact rational value of the binary64 number cmath.exp(-1j*omega), "
+    "computed by the harness with the same expression as lazy_filters.py:303; for small int coefficients the float "
+    "evaluation next to a pole is exact up to relative rounding (measured <= 2.3e-12 relative over 18 000 random "
+    "filters), so the model's exact value at that point is what the code must return",
 ]
 ASSUMPTIONS = [
     "histories: numpoly/denpoly are compared (as the ratio at the probe points) only where the pair is defined and "
@@ -84,16 +93,29 @@ ASSUMPTIONS = [
     "(ParallelFilter.numpoly/denpoly of equal denominators is the inconsistent pair recorded under C05); calling a "
     "bank is compared where every leaf is FIR with int/dyadic coefficients (exact); heaps are acyclic",
     "denominator bounded away from zero at the probed frequency (a-priori rounding bound <= 2e-10), except the exact "
-    "nan case: denominator exactly zero at omega = 0 (w = 1 is the only point of the circle that floats hit exactly)",
+    "nan case: denominator exactly zero at omega = 0 (w = 1 is the only point of the circle that floats hit exactly) "
+    "and the entry `pole` (first-order factor 1 -+ z^-1 times a well-conditioned q, int coefficients): at fl(pi), "
+    "fl(2 pi), ... and tiny omega the code evaluates NEXT to the pole and returns a value ~1e13..1e100, never nan; "
+    "omega below ~1e-300 overflows to inf (float range, not modelled)",
     "frequency containers: scalar, list, tuple, deque, set, frozenset, Stream (finite and endless), generator, map, range; "
     "list_iterator / dict_keys / reversed (TypeError always), dict / bytes (TypeError unless empty) and str (not "
     "iterated) are modelled as what elementwise does today",
     "the call: a container handed to a BANK as one element (nested containers) and the filter object itself as a "
-    "frequency are outside the model (`unmodelled`, never generated); numpy arrays are not available here",
+    "frequency are outside the model (`unmodelled`, never generated); numpy arrays are not available here.  Observed "
+    "on /repo (round 4, not modelled): bank.freq_response([[w1, w2]]) hands the inner list to every member, then "
+    "reduces the members' LISTS with * / +: cascade of >= 2 members -> TypeError (list * list), parallel -> the "
+    "CONCATENATION of the members' response lists (tuple / deque alike; Stream members add / multiply element by "
+    "element; generators and sets -> TypeError); a single-member bank returns the member's list.  A filter object as "
+    "the frequency is Iterable (LinearFilter.__iter__), so the wrapper builds type(arg)(data) = a new ZFilter.  A filter "
+    "with Stream coefficients does not raise: freq_response returns the Stream of the instantaneous transfer "
+    "functions (the nan test is skipped for a Stream denominator); a bank member that is a plain callable raises "
+    "AttributeError (no freq_response) at the first element computation (an EMPTY eager container still comes back "
+    "empty); a source iterator that raises mid-iteration behaves like an element computation that raises: lazy "
+    "results show the items, that exception once, then StopIteration; eager containers and dft let it through",
 ]
 
 MANIFEST = {
-    "text": ("Lean 4 theorems (50, no sorry/axiom) about a hand-written executable model of freq_response "
+    "text": ("Lean 4 theorems (63, no sorry/axiom) about a hand-written executable model of freq_response "
              "(LinearFilter.__init__ normalisation, Poly.__call__ paths, nan test), Cascade/Parallel banks to any "
              "nesting depth, dft and the FIR instance of the generated filter loop: transfer function in every field "
              "and over C at w = exp(-j omega), cascade = product, parallel = sum — for the bank as it is NOW after any "
@@ -105,7 +127,10 @@ MANIFEST = {
              "per-element broadcast over the object bound to freq (scalar -> scalar, list/tuple/deque/set -> same "
              "kind, generator/Stream/chain -> lazy, read semantics with exceptions mid-stream; unbindable calls -> "
              "TypeError per element, KeyError without frequency object), dft's default / truthiness / read-once "
-             "blocks / binding; tied to /repo by a differential "
+             "blocks / binding; nan IFF the denominator vanishes (never another exception), the poles at omega = 0 / pi "
+             "exactly and next to them, the dict form of the specification = the dense one, the FIR run = C04's "
+             "specification of the filter call (steady state and DFT of the impulse response stated on C04's run, over "
+             "Q[i] at Pythagorean points read in C), dft as coded linear for all blocks; tied to /repo by a differential "
              "correspondence in the float regime (exact Gaussian-rational value vs impl float, a-priori rounding bound)"),
     "note": ("Trusted: Lean kernel, axioms propext/Classical.choice/Quot.sound, the Python correspondence harness "
              "(incl. the omega <-> w mapping by atan2 and the tolerance rule 1e-9*(1+|expected|) with a per-case "
@@ -545,6 +570,70 @@ def gen_expo(rng, maxlen, big):
     u = (w[0], -w[1])                 # u = conj w = 1/w = e^{+j omega}
     return {"entry": "expo", "b": b, "ctype": ctype, "u": genc(u), "len": len(b) + rng.randint(0, 8)}
 
+
+
+# ----------------------------------------------------------------------------
+# poles on the unit circle: the frequencies whose exact point is a root of the denominator
+# ----------------------------------------------------------------------------
+# name -> the python float handed to freq_response.  exp(-1j*omega) is exactly 1 only for omega = 0 (and -0.0);
+# at the binary64 multiples of pi the point the code evaluates at is NEXT to -1 / 1 (sin(fl(pi)) = 1.22e-16), at a
+# tiny omega it is 1 - j*omega: the transfer function there is large and finite, the code must return that
+# value, not nan and not an exception (Props.C12.pole_exactly_and_nearby, nan_at_dc_and_nyquist).
+POLE_OMEGAS = {
+    "0": 0.0, "-0.0": -0.0, "int0": 0,
+    "pi": math.pi, "-pi": -math.pi, "3pi": 3 * math.pi, "5pi": 5 * math.pi, "7pi": 7 * math.pi,
+    "2pi": 2 * math.pi, "-2pi": -2 * math.pi, "4pi": 4 * math.pi,
+    "1e-13": 1e-13, "-2^-45": -2.0 ** -45, "1e-20": 1e-20, "1e-100": 1e-100,
+    "pi/2": math.pi / 2, "-pi/2": -math.pi / 2,
+}
+POLE_SIDE = {"0": 1, "-0.0": 1, "int0": 1, "2pi": 1, "-2pi": 1, "4pi": 1, "1e-13": 1, "-2^-45": 1, "1e-20": 1,
+             "1e-100": 1, "pi": -1, "-pi": -1, "3pi": -1, "5pi": -1, "7pi": -1, "pi/2": 0, "-pi/2": 0}
+
+
+def code_point(om):
+    """the exact value (pair of Fractions) of the binary64 complex number `cmath.exp(-1j * om)` the code evaluates at"""
+    import cmath
+    z = cmath.exp(-1j * om)
+    return (F(z.real), F(z.imag))
+
+
+def pconv(p, q):
+    r = [0] * (len(p) + len(q) - 1)
+    for i, x in enumerate(p):
+        for j, y in enumerate(q):
+            r[i + j] += x * y
+    return r
+
+
+def gen_pole(rng, maxlen, big):
+    """ZFilter(b, (1 - r z^-1) q(z^-1)): small int coefficients (every float operation of the evaluation is exact
+    or relatively rounded, no cancellation below the imaginary part of the point), q bounded away from zero at the
+    probed point; r = +1 / -1: the pole at omega = 0 / pi; 15 %: the factor on the other side (an ordinary point)"""
+    for _ in range(100):
+        name = rng.choice(list(POLE_OMEGAS))
+        side = POLE_SIDE[name]
+        r = side if side and rng.random() < 0.85 else rng.choice([1, -1])
+        q = [rng.choice([1, -1, 2, 3, -2])] + [rng.randint(-4, 4) for _ in range(rng.randint(0, min(4, maxlen - 2)))]
+        b = [rng.randint(-5, 5) for _ in range(rng.randint(0, maxlen - 1))]
+        w = code_point(POLE_OMEGAS[name])
+        if gabs(gpoly([(F(x), F(0)) for x in q], w)) < 0.25:
+            continue
+        return {"entry": "pole", "b": b, "q": q, "r": r, "om": name, "kind": rng.choice(["scalar", "scalar", "list", "tuple"]),
+                "by": rng.choice(["pos", "pos", "kw"])}
+    return None
+
+
+def gen_dftlin(rng, maxlen, big):
+    """dft(c*x + y, freqs, normalize) against c*dft(x) + dft(y): int / dyadic data (the combination block is exact)"""
+    n = rng.randint(0, maxlen) if rng.random() < 0.9 else 0
+    xs = [rng.randint(-9, 9) for _ in range(n)]
+    ys = [rng.randint(-9, 9) for _ in range(n)]
+    c = rng.choice([1, -1, 2, 3, -4, enc(F(1, 2)), enc(F(-3, 4)), 0])
+    pts = [rand_point(rng, big) for _ in range(rng.randint(0, 4))]
+    if rng.random() < 0.4:
+        pts.append(SPECIAL["0"])
+    return {"entry": "dftlin", "xs": xs, "ys": ys, "c": c, "pts": [genc(w) for w in pts],
+            "normalize": rng.random() < 0.6, "wrap": rng.random() < 0.5}
 
 
 # ----------------------------------------------------------------------------
@@ -1173,11 +1262,11 @@ def generate(rng, tier, scale=1):
         cases += malformed(rng)
         cases += grid(2 if quick else 3)
     gens = [(gen_freq, 26), (gen_freqd, 9), (gen_bank, 10), (gen_tree, 9), (gen_dft, 9), (gen_fir, 9),
-            (gen_expo, 10), (gen_call, 24), (gen_dftcall, 10)]
+            (gen_expo, 10), (gen_call, 24), (gen_dftcall, 10), (gen_pole, 7), (gen_dftlin, 4)]
     total = sum(wt for _, wt in gens)
     for g, wt in gens:
         for _ in range(n * wt // total):
-            c = g(rng, (maxlen if g not in (gen_dft, gen_dftcall) else (16 if quick else 48)), big)
+            c = g(rng, (maxlen if g not in (gen_dft, gen_dftcall, gen_dftlin) else (16 if quick else 48)), big)
             if c is not None:
                 cases.append(c)
     for _ in range((N_HIST_QUICK if quick else N_HIST_THOROUGH) * scale):
@@ -1621,6 +1710,31 @@ def _impl(c):
             return {"out": [cnum(v) for v in out],
                     "dft": [cnum(v) for v in dft(out, oms, normalize=False)],
                     "H": [cnum(filt.freq_response(om)) for om in oms]}
+        if e == "pole":
+            a = pconv([1, -c["r"]], c["q"])
+            filt = ZFilter(list(c["b"]), a)
+            om = POLE_OMEGAS[c["om"]]
+            res = fr(filt, c, container(c["kind"], [om]))
+            vals = [res] if c["kind"] == "scalar" else list(res)
+            # the nan of the property is the float nan of lazy_math; a complex nan is a different object
+            return {"kind": "scalar" if c["kind"] == "scalar" else type(res).__name__,
+                    "vals": [("cnan" if isinstance(v, complex) and (v.real != v.real or v.imag != v.imag) else cnum(v))
+                             for v in vals]}
+        if e == "dftlin":
+            cc = dec(c["c"])
+            cc = int(cc) if cc.denominator == 1 else float(cc)
+            comb = [cc * x + y for x, y in zip(c["xs"], c["ys"])]
+            oms = omegas(c)
+            obs = {"block": [cnum(v) for v in comb]}
+            for key, blk in (("lhs", comb), ("x", c["xs"]), ("y", c["ys"])):
+                try:
+                    obs[key] = [cnum(v) for v in dft(list(blk), oms, normalize=c["normalize"])]
+                except Exception as ex:
+                    obs[key] = {"err": err_kind(ex)}
+            if isinstance(obs["x"], list) and isinstance(obs["y"], list):
+                obs["rhs"] = [cnum(cc * complex(float(dec(p[0])), float(dec(p[1]))) +
+                                   complex(float(dec(r[0])), float(dec(r[1])))) for p, r in zip(obs["x"], obs["y"])]
+            return obs
         if e == "expo":
             filt = ZFilter([py_coeff(x, c["ctype"]) for x in c["b"]])
             u = gdec_pt(c["u"])
@@ -1694,6 +1808,10 @@ def request(c):
         return {"entry": "fir", "b": c["b"], "xs": c["xs"], "ws": c["pts"]}
     if e == "expo":
         return {"entry": "expo", "b": c["b"], "u": c["u"], "len": c["len"]}
+    if e == "pole":
+        return {"entry": "pole", "b": c["b"], "q": c["q"], "r": c["r"], "ws": [genc(code_point(POLE_OMEGAS[c["om"]]))]}
+    if e == "dftlin":
+        return {"entry": "dftlin", "xs": c["xs"], "ys": c["ys"], "c": c["c"], "ws": c["pts"], "normalize": c["normalize"]}
     if e == "hist":
         objs = [({bank_key(o): o[bank_key(o)]} if is_bank(o) else {"b": o["b"], "a": o["a"]}) for o in c["objs"]]
         ops = []
@@ -1711,7 +1829,7 @@ def request(c):
 # ----------------------------------------------------------------------------
 def gclose(iv, ev, tol):
     """impl value (canonical) vs expected (driver json)"""
-    if iv == "nan" or ev == "nan":
+    if iv in ("nan", "cnan") or ev == "nan":
         return iv == ev
     if isinstance(ev, dict):
         return False
@@ -1908,6 +2026,36 @@ def compare(c, io, drv):
             return []
         cmp_resp(c, io, drv["model"], "model", "model", out, drv["ctor_model"])
         cmp_resp(c, io, drv["spec"], "spec", "spec", out, drv["ctor_spec"])
+        if "spec_terms" in drv and drv["spec_terms"] != drv["spec"] and not drv["ctor_spec"]:
+            out.append(("spec", "the dict form of the specification differs from the dense one: %r vs %r"
+                        % (drv["spec_terms"], drv["spec"])))
+        return out
+    if e == "pole":
+        a = pconv([1, -c["r"]], c["q"])
+        if [gdec(x) for x in drv["a"]] != [(F(x), F(0)) for x in a]:
+            out.append(("model", "pole: denominator (1 - r z^-1) q differs: harness %r, Lean %r" % (a, drv["a"])))
+        if "err" not in io and io["kind"] != c["kind"]:
+            out.append(("spec", "pole: result container is %s, expected %s" % (io["kind"], c["kind"])))
+        for tag in ("model", "spec"):
+            if "err" in io:
+                out.append((tag, "pole at omega=%s: impl raised %s, %s gives %r" % (c["om"], io["err"], tag, drv[tag])))
+            elif not lclose(io["vals"], drv[tag], TOL):
+                out.append((tag, "pole at omega=%s: impl=%r %s=%r" % (c["om"], io["vals"], tag, drv[tag])))
+        return out
+    if e == "dftlin":
+        if "err" in io:
+            return [("model", "dftlin: impl raised %s" % io["err"])]
+        if not lclose(io["block"], drv["block"], 0):
+            out.append(("model", "dftlin: the combined block differs: impl=%r Lean=%r" % (io["block"], drv["block"])))
+        for tag in ("model", "spec"):
+            d = drv[tag]
+            for side in ("lhs", "rhs") if tag == "spec" else ("lhs",):
+                got = io.get(side, io["x"] if isinstance(io["x"], dict) else io["y"])
+                if isinstance(d, dict) or isinstance(got, dict):
+                    if not (isinstance(d, dict) and isinstance(got, dict) and d.get("err") == got.get("err")):
+                        out.append((tag, "dftlin %s: impl %r, %s %r" % (side, got, tag, d)))
+                elif not lclose(got, d, TOL):
+                    out.append((tag, "dft is not linear (%s): impl=%r %s=%r" % (side, got, tag, d)))
         return out
     if "err" in io:
         for tag in ("model", "spec"):
@@ -1928,6 +2076,12 @@ def compare(c, io, drv):
             out.append(("model", "FIR output differs from the loop model: impl=%r model=%r" % (io["out"], drv["model"])))
         if not lclose(io["out"], drv["spec"], tol):
             out.append(("spec", "FIR output is not the convolution: impl=%r spec=%r" % (io["out"], drv["spec"])))
+        if "c04" in drv and drv["c04"] != drv["model"]:
+            out.append(("spec", "the C04 run of the FIR filter differs from the loop model: %r vs %r" % (drv["c04"], drv["model"])))
+        if "c04" in drv and not lclose(io["out"], drv["c04"], tol):
+            out.append(("spec", "FIR output differs from the C04 run: impl=%r c04=%r" % (io["out"], drv["c04"])))
+        if "dft_of_c04" in drv and not lclose(io["dft"], drv["dft_of_c04"], TOL):
+            out.append(("spec", "dft of the output differs from dft of the C04 run: impl=%r c04=%r" % (io["dft"], drv["dft_of_c04"])))
         if not lclose(io["dft"], drv["dft_of_model"], TOL):
             out.append(("model", "dft of the output differs: impl=%r model=%r" % (io["dft"], drv["dft_of_model"])))
         if not lclose(io["H"], drv["H"], TOL):
@@ -1942,7 +2096,13 @@ def compare(c, io, drv):
     if e == "expo":
         if not lclose(io["out"], drv["model"], TOL):
             out.append(("model", "exponential through FIR differs from the loop model: impl=%r model=%r" % (io["out"], drv["model"])))
+        if "c04" in drv and not lclose(io["out"], drv["c04"], TOL):
+            out.append(("spec", "exponential through FIR differs from the C04 run: impl=%r c04=%r" % (io["out"], drv["c04"])))
+        if "resp" in drv and not gclose(io["H"], drv["resp"], TOL):
+            out.append(("model", "freq_response of the FIR filter differs from the model: impl=%r model=%r" % (io["H"], drv["resp"])))
         k = drv["order"]
+        if "c04" in drv and drv["c04"][k:] != drv["steady"][k:]:
+            out.append(("spec", "steady state of the C04 run is not H*x[n] exactly: %r vs %r" % (drv["c04"][k:], drv["steady"][k:])))
         if not lclose(io["out"][k:], drv["steady"][k:], TOL):
             out.append(("spec", "steady state is not H*x[n]: impl=%r spec=%r" % (io["out"][k:], drv["steady"][k:])))
         if not gclose(io["H"], drv["H"], TOL):
@@ -1963,7 +2123,9 @@ def nontrivial(c, io):
         return any(v == "nan" or v[0] != 0 or v[1] != 0 for v in vals) or \
             any(isinstance(r, dict) and "exc" in r for r in io.get("reads", []))
     vals = io.get("vals") or io.get("out") or []
-    return any(v == "nan" or v[0] != 0 or v[1] != 0 for v in vals)
+    if c["entry"] == "dftlin":
+        vals = io["lhs"] if isinstance(io.get("lhs"), list) else ["nan"]
+    return any(v in ("nan", "cnan") or v[0] != 0 or v[1] != 0 for v in vals)
 
 
 def tally_hist(eng, c, io):
@@ -2108,6 +2270,18 @@ def tally(eng, c, io):
         eng.count("regime", "exact" if c["ctype"] in ("int", "dyadic") else "float(tol 1e-9)")
     elif e == "expo":
         eng.count("expo_len_minus_order", c["len"] - len(c["b"]) + 1)
+        eng.count("regime", "float(tol 1e-9)")
+    elif e == "pole":
+        eng.count("pole_omega", c["om"])
+        eng.count("pole_factor", "1%+dz^-1 at %s" % (-c["r"], {1: "w~1", -1: "w~-1", 0: "w~+-i"}[POLE_SIDE[c["om"]]]))
+        vals = io.get("vals", [])
+        eng.count("pole_result", "nan" if "nan" in vals else "cnan" if "cnan" in vals else "raises" if "err" in io else
+                  "huge(>1e9)" if vals and gabs((float(dec(vals[0][0])), float(dec(vals[0][1])))) > 1e9 else "ordinary")
+        eng.count("regime", "float(tol 1e-9)")
+    elif e == "dftlin":
+        eng.count("dftlin_normalize", c["normalize"])
+        eng.count("dftlin_len", min(len(c["xs"]) // 4 * 4, 48))
+        eng.count("dftlin_result", "raises" if isinstance(io.get("lhs"), dict) else "list")
         eng.count("regime", "float(tol 1e-9)")
 
 
@@ -2354,6 +2528,23 @@ def shrink(c):
                 yield dict(c, b=b, len=max(c["len"] - 1, len(b)))
         if c["len"] > len(c["b"]):
             yield dict(c, len=c["len"] - 1)
+    elif e == "pole":
+        for b in _shrink_list(c["b"]):
+            yield dict(c, b=b)
+        for q in _shrink_list(c["q"]):
+            if q and q[0] != 0 and gabs(gpoly([(F(x), F(0)) for x in q], code_point(POLE_OMEGAS[c["om"]]))) >= 0.25:
+                yield dict(c, q=q)
+        if c["kind"] != "scalar":
+            yield dict(c, kind="scalar")
+        if c.get("by") == "kw":
+            yield dict(c, by="pos")
+    elif e == "dftlin":
+        for i in range(len(c["xs"])):
+            yield dict(c, xs=c["xs"][:i] + c["xs"][i + 1:], ys=c["ys"][:i] + c["ys"][i + 1:])
+        for i in range(len(c["pts"])):
+            yield dict(c, pts=c["pts"][:i] + c["pts"][i + 1:])
+        if c["c"] != 1:
+            yield dict(c, c=1)
 
 
 def neighbours(c):
@@ -2396,6 +2587,12 @@ def neighbours(c):
     elif e == "expo":
         for p in others:
             yield dict(c, u=[p[0], enc(-dec(p[1]))])
+    elif e == "pole":
+        for name in ("0", "pi", "1e-13", "2pi"):
+            if name != c["om"]:
+                yield dict(c, om=name, r=POLE_SIDE[name])
+    elif e == "dftlin":
+        yield dict(c, normalize=not c["normalize"])
 
 
 def classify(c, io, drv):
@@ -2421,6 +2618,12 @@ def classify(c, io, drv):
     if e == "dftcall":
         return "dftcall:%s:%s" % (c["bkind"], ("raises-" + io["err"]) if "err" in io else "value")
     tag = e if e != "bank" else c["bkind"]
+    if e == "pole":
+        vals = io.get("vals", [])
+        return "pole:%s:%s" % ("at-the-pole" if POLE_SIDE[c["om"]] == c["r"] and c["om"] in ("0", "-0.0", "int0") else
+                               "next-to-the-pole" if POLE_SIDE[c["om"]] == c["r"] else "ordinary-point",
+                               ("raises-" + io["err"]) if "err" in io else "nan" if "nan" in vals else
+                               "complex-nan" if "cnan" in vals else "value")
     if e == "tree":
         tag = "tree-" + ("cascade" if "cascade" in c["tree"] else "parallel")
     if "err" in io:
